@@ -95,6 +95,8 @@ AutoConv(M, m, iv) ==
                         v |-> IF iv.T = "anyURI" THEN [t |-> "uri", u |-> iv.u]
                               ELSE [t |-> NativeT[iv.T], v |-> iv.v]]
     [] iv.t = "plit" -> [ok |-> TRUE, v |-> [t |-> "str", v |-> iv.v], M |-> M]
+    [] iv.t = "lit"  -> LET r == ResolveQNF(M[m], iv.dt.p, iv.dt.ns, iv.dt.l)   \* datatype re-homed
+                        IN [ok |-> TRUE, v |-> [iv EXCEPT !.dt = r.q], M |-> [M EXCEPT ![m] = r.st]]
     [] OTHER         -> [ok |-> TRUE, v |-> iv, M |-> M]
 
 (* One (name, value) pair of add_attributes.  Result: [rec, M, exc] *)
